@@ -437,6 +437,171 @@ def check_glvdecomp(res, facts):
     (rule.bad if problems else rule.ok)(key, "; ".join(problems) if problems else "k1 = k - beta1 n11 - beta2 n21, k2 = -(beta1 n12 + beta2 n22), beta1 = round(k n22 / r), beta2 = round(-k n12 / r)", f.loc)
 
 
+# ---- R-FIXEDBASE ------------------------------------------------------------------------------------------
+
+def check_fixedbase(res, facts):
+    """fixed-base batch multiplication (BatchMulPreprocessing): table[o][j] = j * 2^(o*w) * g and the multiplication adds
+    table[o][bits o*w .. o*w+w of k]: the clauses visible in the code -- one window width w everywhere, rows = ceil(size/w),
+    the base is doubled w times between rows (pushed before the doublings), a row is filled with the running sum stored
+    before it is advanced from zero, the last row has 2^(size - (rows-1) w) entries, the multiplication reads bit
+    o*w + i (guarded by the modulus size) into bit i of the column index and accumulates from the zero entry"""
+    from rules.c07 import E, show, norm, qeq, A, C
+    from rules.c17 import to_q, NotPoly
+    from arklib.poly import Q
+    rule = res.rule("R-FIXEDBASE", "BatchMulPreprocessing: table layout and window arithmetic of the builder agree with windowed_mul", 2)
+    pre = "ark_ec::scalar_mul::BatchMulPreprocessing"
+    fns = {f.name: f for f in facts.fns(unit="ws", crate="ark_ec") if f.kind != "Closure" and pre in f.id and f.name in ("with_num_scalars_and_scalar_size", "windowed_mul")}
+    b = fns.get("with_num_scalars_and_scalar_size")
+    key = "ark_ec|BatchMulPreprocessing::with_num_scalars_and_scalar_size"
+    if b is None:
+        rule.bad(key, "anchor missing")
+    else:
+        problems = []
+        W = C("compute_window_size", A(2))
+        rows = C("div_ceil", A(3), W)
+        tabs = [E(b, t["args"][0]) for _, t in b.calls() if t["f"].get("name") == "iter_mut"]
+        want_tab = C("from_elem", C("from_elem", 0, ("bin", "Shl", 1, W)), rows)
+        if want_tab not in tabs:
+            problems.append("the table is %s, expected ceil(size/w) rows of 2^w entries with w = compute_window_size(num_scalars)" % [show(t)[:100] for t in tabs])
+        # doubling loop between rows
+        loops = DF.sccs(b)
+        dbl = [(bb, t) for bb, t in b.calls() if t["f"].get("name") == "double_in_place"]
+        push = [(bb, t) for bb, t in b.calls() if t["f"].get("name") == "push"]
+        if len(dbl) != 1 or len(push) != 1:
+            problems.append("expected one push of the row base and one doubling loop")
+        else:
+            dbb, pbb = dbl[0][0], push[0][0]
+            outer_scc = min((scc for scc in loops if dbb in scc), key=len, default=None)
+            # the loop nest shares one SCC: the inner loop is the cycle through the doubling that avoids the header of the
+            # outer loop (the `next` block that dominates every other `next` of the SCC)
+            nexts = [bb for bb, t in b.calls() if outer_scc and bb in outer_scc and t["f"].get("name") == "next"]
+            header = next((h for h in nexts if all(b.dominates(h, o) for o in nexts)), None)
+            succ = b.succ()
+
+            def reach(src, allowed):
+                seen, st_ = set(), [src]
+                while st_:
+                    x = st_.pop()
+                    for y in succ[x]:
+                        if y in allowed and y not in seen:
+                            seen.add(y)
+                            st_.append(y)
+                return seen
+            allowed = (set(outer_scc) - {header}) if outer_scc and header is not None and len(nexts) > 1 else set(outer_scc or ())
+            inner = {x for x in allowed if dbb in reach(x, allowed) and x in reach(dbb, allowed)} if allowed else None
+            trip = None
+            for bb, t in b.calls():
+                if inner and bb in inner and t["f"].get("name") == "next":
+                    r = E(b, t["args"][0])
+                    if isinstance(r, tuple) and r[:2] == ("agg", "Range") and r[2][0] == 0:
+                        trip = r[2][1]
+            outer = [scc for scc in loops if pbb in scc]
+            if trip != W:
+                problems.append("the row base is doubled %s times between rows, not w = %s times" % (show(trip), show(W)))
+            if not outer or pbb in (inner or ()) or not b.dominates(pbb, dbb):
+                problems.append("the row base is not pushed before it is doubled in each round")
+            if root_key(b, dbl[0][1]["args"][0]) != root_key(b, push[0][1]["args"][1]):
+                problems.append("the value doubled is not the row base that is pushed")
+        # row fill closure
+        fe = [t for _, t in b.calls() if t["f"].get("name") == "for_each"]
+        clo = facts.get(closure_args(b, fe[0])[0], b.unit) if fe and closure_args(b, fe[0]) else None
+        if clo is None:
+            problems.append("row-fill closure not found")
+        else:
+            env = E(b, fe[0]["args"][1])
+            last = ("bin", "Shl", 1, ("bin", "Sub", A(3), ("bin", "Mul", ("bin", "Sub", rows, 1), W)))
+            caps = list(env[2]) if isinstance(env, tuple) and env[0] == "agg" else []
+            lnames = {A(3): "size", rows: "rows", W: "w"}
+            want_e = Q.var("size") - (Q.var("rows") - Q.const(1)) * Q.var("w")
+            has_last = last in caps
+            for c_ in caps:
+                if isinstance(c_, tuple) and c_[:3] == ("bin", "Shl", 1):
+                    try:
+                        has_last = has_last or qeq(to_q(c_[3], lambda t_: lnames.get(t_)), want_e)
+                    except NotPoly:
+                        pass
+            if not has_last:
+                problems.append("the last row is not limited to 2^(size - (rows-1) w) entries (captures %s)" % [show(c_)[:60] for c_ in caps])
+            stores = []
+            for bi, si, st_ in clo.stmts():
+                if "d" in st_:
+                    l, projs = place_parts(st_["d"])
+                    if projs and projs[0] == "*":
+                        stores.append((bi, st_))
+            adds = [(bb, t) for bb, t in clo.calls() if t["f"].get("name") == "add_assign"]
+            zeros = [bb for bb, t in clo.calls() if t["f"].get("name") == "zero"]
+            if len(stores) != 1 or len(adds) != 1 or not zeros:
+                problems.append("row fill is not `entry = running sum; running sum += row base` from zero()")
+            else:
+                sbb, abb = stores[0][0], adds[0][0]
+                acc = root_key(clo, adds[0][1]["args"][0])
+                src = root_key(clo, stores[0][1]["r"]["o"]) if stores[0][1]["r"]["k"] == "use" else None
+                if acc is None or acc != src:
+                    problems.append("the value stored into the row is not the running sum")
+                if not (clo.dominates(sbb, abb) and sbb != abb) and not (sbb == abb):
+                    problems.append("the running sum is advanced before it is stored (entry j would hold (j+1) * base)")
+                if sbb == abb:
+                    pass    # store (statement) precedes the call terminator of the same block
+        # struct fields
+        outs = []
+        for bi, si, st_ in b.stmts():
+            r = st_.get("r")
+            if r and r["k"] == "agg" and (r.get("adt") or "").endswith("BatchMulPreprocessing"):
+                outs.append(dict(zip(r.get("fields") or [], [E(b, o) for o in r["ops"]])))
+        if len(outs) != 1 or outs[0].get("window") != W or outs[0].get("max_scalar_size") != A(3):
+            problems.append("the stored window / max_scalar_size are %s, not (w, size)" % [(show(o.get("window")), show(o.get("max_scalar_size"))) for o in outs])
+        (rule.bad if problems else rule.ok)(key, "; ".join(problems) if problems else "ceil(size/w) rows of 2^w entries; base doubled w times between rows; entry j = j * row base; last row 2^(size-(rows-1)w) entries", b.loc)
+    m = fns.get("windowed_mul")
+    key = "ark_ec|BatchMulPreprocessing::windowed_mul"
+    if m is None:
+        rule.bad(key, "anchor missing")
+    else:
+        problems = []
+        w, size = A(1, "window"), A(1, "max_scalar_size")
+        o_it = ("iter", 0, C("div_ceil", size, w))
+        i_it = ("iter", 0, w)
+        names = {o_it: "o", i_it: "i", w: "w"}
+
+        def leaf(t):
+            return names.get(t)
+        want_bit = Q.var("o") * Q.var("w") + Q.var("i")
+        bit_reads = [E(m, t["args"][1]) for _, t in m.calls() if t["f"].get("name") == "index" and E(m, t["args"][0]) == C("to_bits_le", C("into_bigint", A(2)))]
+        try:
+            if len(bit_reads) != 1 or not qeq(to_q(bit_reads[0], leaf), want_bit):
+                problems.append("the scalar bit read for column bit i of row o is %s, expected bit o*w + i" % [show(x)[:80] for x in bit_reads])
+        except NotPoly as e:
+            problems.append("bit index is not an index polynomial of (row, bit, window): %s" % e)
+        guards = [E(m, bl["t"]["o"]) for bl in m.bbs if bl["t"]["k"] == "switch"]
+        okg = False
+        for g in guards:
+            if isinstance(g, tuple) and g[0] == "bin" and g[1] == "Lt" and g[3] == "MODULUS_BIT_SIZE":
+                try:
+                    okg = okg or qeq(to_q(g[2], leaf), want_bit)
+                except NotPoly:
+                    pass
+        if not okg:
+            problems.append("the bit read is not guarded by o*w + i < MODULUS_BIT_SIZE")
+        ors = []
+        for bi, si, st_ in m.stmts():
+            r = st_.get("r")
+            if r and r["k"] == "bin" and r["op"] == "BitOr":
+                ors.append((E(m, r["a"]), E(m, r["b"])))
+        if not any(("bin", "Shl", 1, i_it) in pair for pair in ors):
+            problems.append("column index is not assembled as inner |= 1 << i (found %s)" % [(show(a_)[:40], show(b_)[:40]) for a_, b_ in ors])
+        accs = [t for _, t in m.calls() if t["f"].get("name") == "add_assign"]
+        if len(accs) != 1:
+            problems.append("expected one accumulation per row")
+        else:
+            val = E(m, accs[0]["args"][1])
+            okv = isinstance(val, tuple) and val[:2] == ("call", "index") and val[2][0] == C("index", A(1, "table"), o_it)
+            if not okv:
+                problems.append("the accumulated entry is %s, expected table[o][inner]" % show(val)[:100])
+            init = E(m, accs[0]["args"][0])
+            if init != C("index", C("index", A(1, "table"), 0), 0):
+                problems.append("the accumulator starts at %s, expected the zero entry table[0][0]" % show(init)[:80])
+        (rule.bad if problems else rule.ok)(key, "; ".join(problems) if problems else "rows 0..ceil(size/w); column = sum of bit(o*w+i) << i for i < w (bits below the modulus size); res = table[0][0] + sum table[o][column]", m.loc)
+
+
 def run(ctx, res):
     facts = ctx.facts(UNITS)
     res.analysed = facts.stats()
@@ -445,8 +610,9 @@ def run(ctx, res):
     check_wnaf(res, facts)
     check_bits(res, facts)
     check_glvdecomp(res, facts)
+    check_fixedbase(res, facts)
     return {
         "level": "other",
-        "explanation": "Loop-recurrence typing and dataflow rules over the MIR of ark-ec / ark-ff scalar multiplication and exponentiation loops and of every curve crate's overrides of the raw-limb entry points; GLV constants and lattice bases are decided exhaustively under C16. Does NOT decide equality of any path's result with k*P, correctness of wNAF digits (C15) or table sizing at run time.",
+        "explanation": "Loop-recurrence typing and dataflow rules over the MIR of ark-ec / ark-ff scalar multiplication and exponentiation loops and of every curve crate's overrides of the raw-limb entry points; GLV constants and lattice bases are decided exhaustively under C16. Does NOT decide equality of any path's result with k*P, correctness of wNAF digits (C15); the fixed-base table layout and window arithmetic are decided structurally (R-FIXEDBASE), not as a run-time equality.",
         "assumptions": ["point addition / doubling realise the group law (C03)"],
     }
